@@ -27,10 +27,23 @@ the inline stage on a provably sufficient fuel) answers `ok` for every flag set 
    `C02_convertXBig_ok_attr_list` and, with footnotes, no footnote body that itself defines a footnote
    (`fnOod`; on the real code `RuntimeError: dictionary changed size during iteration`, F-C02-2).
 
+4. `C02_tocRun_clean`, **`C02_convertXBig_ok_toc_partial`**, **`C02_convertXBig_ok_all_partial`** — WITH TOC, and the
+   combined statement for EVERY subset of the eleven extensions, under ONE extra decidable hypothesis when toc is on:
+   `tocClean` — no heading element of the tree handed to `TocTreeprocessor` holds an STX (its serialisation after
+   `remove_fnrefs`, its attribute values).  Headings with emphasis, links, code, abbreviations, footnote references,
+   attribute lists (`{: #id data-toc-label=… }`), duplicated names, inside admonitions are covered; excluded are headings
+   whose text has a backslash escape or an entity reference (an escape token / a raw-HTML placeholder is in the tree when
+   toc runs) — there the model and the implementation answer as well (examples below), but the proof would need a token
+   class through serialise / unescape / postprocessors / `strip_tags` inside `TocTreeprocessor`, which is left open.
+   Under `tocClean` everything `TocTreeprocessor` computes is free of STX: `run` never answers `err`
+   (`C02_tocRun_err_only_unescape`'s four `unescape` calls meet no STX), the `div.toc` and the new ids hold no STX, so
+   the final `UnescapeTreeprocessor` meets bad tokens neither in the old part of the tree (`NodeNB`) nor in the new one.
+
 Only property statements live here; proofs in `MdVerif/Lemmas/C02Fn*.lean`.  Core Lean only.
 -/
 import MdVerif.Lemmas.C02FnOk
 import MdVerif.Lemmas.C02FnDup2
+import MdVerif.Lemmas.C02FnTocAll
 
 namespace MdVerif.C02Fn
 open Py Pipeline PipelineX C02BigX
@@ -172,6 +185,109 @@ example : (match convertXBig xFnAll {} srcFnAll, convertX xFnAll {} srcFnAll wit
     footnote) -/
 example : fnOod { footnotes := true } {} "[^1]: a\n\n    [^2]: nested def\n\nt[^1]".toList = true ∧
     convertXBig { footnotes := true } {} "[^1]: a\n\n    [^2]: nested def\n\nt[^1]".toList = .ood := by
+  decide +kernel
+
+/-! ### 4. toc (partial) and every flag set -/
+
+open C02Toc
+
+/-- **`TocTreeprocessor.run` on a tree without bad tokens whose headings hold no STX** (`hdsClean`: for every element
+    `[Hh][1-6]`, the serialisation after `remove_fnrefs` and the attribute values), with postprocessors that are the
+    identity on STX-free strings (`postX` is: `C02Toc.postX_noSTX`): `run` never answers `err` — it answers `ood`
+    (`html.unescape` / `slugify` outside the model) or `ok t'` where `t'` holds no bad token either (new ids, the
+    `div.toc` built from the nested tokens), and the root keeps its tag and, being no heading, its attributes. -/
+theorem C02_tocRun_clean {env : TocTree.Env} (hpost : ∀ s, TreeProc.STX ∉ s → env.post s = some s) (bl : List Str)
+    (root : Node) (hc : hdsClean env.fmt root = true) (hnb : root.Forall C02BigNB.NodeNB) :
+    TocTree.run env bl root = .ood ∨ ∃ t', TocTree.run env bl root = .ok t' ∧ t'.Forall C02BigNB.NodeNB ∧
+      t'.tag = root.tag ∧ (TocTree.isHeaderTag root.tag = false → t'.attrs = root.attrs) :=
+  run_clean hpost bl root hc hnb
+
+/-- the postprocessors are the identity on a string without STX (no placeholder, no footnote token, no `&` substitute) -/
+theorem C02_postX_identity (x : Exts) (cfg : Cfg) (stash : List Str) {s : Str} (h : TreeProc.STX ∉ s) :
+    postX x cfg stash s = some s :=
+  postX_noSTX x cfg stash h
+
+/-- **The root is the bare wrapper `div` — EVERY flag set** (toc included: it sets ids on headings and replaces marker
+    elements below the root only) -/
+theorem C02_treeXBig_rootDiv_all (x : Exts) (cfg : Cfg) (src : Str) (u : Node) (html : List Str)
+    (h : treeXBig x cfg src = .ok u html) : C14X.rootDiv u = true :=
+  treeXBig_rootDiv_all h
+
+/-- **`Markdown.convert` never raises — every flag set; with toc when the headings handed to `TocTreeprocessor` hold no
+    STX** (`tocClean`, decidable by evaluation).  EVERY source (`tab_length ≥ 1` with fenced_code). -/
+theorem C02_convertXBig_never_err_all_partial (x : Exts) (cfg : Cfg) (src : Str)
+    (htab : x.fencedCode = true → 0 < cfg.tab) (hcl : x.toc = true → tocClean x cfg src = true) :
+    convertXBig x cfg src ≠ .err :=
+  convertXBig_ne_err_all cfg src htab hcl
+
+/-- **C02 with toc (partial): `convert` returns a string** — toc ON, the other ten extensions on or off; every
+    configuration (`tab_length ≥ 1` with admonition or fenced_code); every `<`-free source of the model's domain
+    (`treeOod = false`, decidable: the stages up to the serializer do not answer "out of domain" — the cases of
+    `InDomainFn`, and for toc a heading name with an `&` that starts none of `&amp; &lt; &gt; &quot;` or a non-ASCII
+    character) that satisfies `tocClean` and, with wikilinks, `WikiSrc`. -/
+theorem C02_convertXBig_ok_toc_partial (x : Exts) (htoc : x.toc = true) (cfg : Cfg) (src : Str) (hlt : '<' ∉ src)
+    (htab : x.admonition = true ∨ x.fencedCode = true → 0 < cfg.tab) (hd : treeOod x cfg src = false)
+    (hw : x.wikilinks = true → WikiSrc cfg src) (hcl : tocClean x cfg src = true) :
+    ∃ out, convertXBig x cfg src = .ok out :=
+  convertXBig_ok_all cfg src hlt htab hd hw (fun _ => hcl)
+
+/-- **C02 for the whole extension model (partial for toc): every subset of the eleven extensions** — fenced_code,
+    tables, admonition, def_list, abbr, footnotes, sane_lists, nl2br, wikilinks, attr_list, toc —, every configuration
+    (`tab_length ≥ 1` with admonition or fenced_code), every `<`-free source of the model's domain, under the decidable
+    hypotheses `WikiSrc` (wikilinks) and `tocClean` (toc): `convertXBig x cfg src = ok out` — every loop ends within its
+    fuel, nothing raises.  Without toc `tocClean` is not needed and the domain is `InDomainFn`
+    (`C02_convertXBig_ok_footnotes`, `C02_domain_without_toc`). -/
+theorem C02_convertXBig_ok_all_partial (x : Exts) (cfg : Cfg) (src : Str) (hlt : '<' ∉ src)
+    (htab : x.admonition = true ∨ x.fencedCode = true → 0 < cfg.tab) (hd : treeOod x cfg src = false)
+    (hw : x.wikilinks = true → WikiSrc cfg src) (hcl : x.toc = true → tocClean x cfg src = true) :
+    ∃ out, convertXBig x cfg src = .ok out :=
+  convertXBig_ok_all cfg src hlt htab hd hw hcl
+
+/-- without toc the domain hypothesis is the source-level `InDomainFn` -/
+theorem C02_domain_without_toc (x : Exts) (htoc : x.toc = false) (cfg : Cfg) (src : Str) (hd : InDomainFn x cfg src) :
+    treeOod x cfg src = false :=
+  treeOod_of_inDomainFn htoc hd
+
+/-- … and the model with its own fuel answers the same string, or `oof` (the stack loop of `runX` on the linear fuel) -/
+theorem C02_convertX_ok_or_stack_fuel_all_partial (x : Exts) (cfg : Cfg) (src : Str) (hlt : '<' ∉ src)
+    (htab : x.admonition = true ∨ x.fencedCode = true → 0 < cfg.tab) (hd : treeOod x cfg src = false)
+    (hw : x.wikilinks = true → WikiSrc cfg src) (hcl : x.toc = true → tocClean x cfg src = true) :
+    (∃ out, convertX x cfg src = .ok out ∧ convertXBig x cfg src = .ok out) ∨ convertX x cfg src = .oof := by
+  by_cases h : convertX x cfg src = .oof
+  · exact .inr h
+  · left
+    obtain ⟨out, ho⟩ := C02_convertXBig_ok_all_partial x cfg src hlt htab hd hw hcl
+    refine ⟨out, ?_, ho⟩
+    rw [← convertXBig_of_convertX_ne_oof_all h, ho]
+
+/-- ALL ELEVEN on: the marker; a heading with emphasis, a link with a title, a footnote reference and an explicit id; two
+    headings with the same name that hold an abbreviation and a code span; a heading with a `data-toc-label`; a heading
+    inside an admonition; a `#` line inside a fenced block; a paragraph with an escape, a wiki link and an entity
+    reference (not in a heading) -/
+def xAllOn : Exts := { xFnAll with toc := true }
+def srcAllOn : Str :=
+  ("[TOC]\n\n# T *e* [l](/u \"t\")[^1] {: #i }\n\n## Sub HTML `c`\n\n## Sub HTML `c`\n\n*[HTML]: Hyper\n\n" ++
+   "a[^1] \\* [[W p]] &amp;\n\n### deep {: data-toc-label=\"lbl\" }\n\n" ++
+   "!!! note\n    # in adm\n\n```py\n# no heading\n```\n\n[^1]: note\n").toList
+
+/-- the hypotheses of `C02_convertXBig_ok_all_partial` hold for it -/
+example : '<' ∉ srcAllOn ∧ 0 < ({} : Cfg).tab ∧ treeOod xAllOn {} srcAllOn = false ∧ WikiSrc {} srcAllOn ∧
+    tocClean xAllOn {} srcAllOn = true := by decide +kernel
+
+/-- 1127 characters, the output of the implementation -/
+example : (match convertXBig xAllOn {} srcAllOn, convertX xAllOn {} srcAllOn with
+    | .ok a, .ok b => decide (a = b) && decide (a.length = 1127)
+    | _, _ => false) = true := by decide +kernel
+
+/-- the points excluded by `tocClean`: a backslash escape or an entity reference in a heading (an escape token / a
+    raw-HTML placeholder is in the tree when toc runs).  The model — and the implementation — answer there as well -/
+example : tocClean { toc := true } {} "# a \\* b".toList = false ∧ tocClean { toc := true } {} "# a &amp; b".toList = false ∧
+    convertXBig { toc := true } {} "# a \\* b\n\n[TOC]".toList =
+      .ok "<h1 id=\"a-b\">a * b</h1>\n<div class=\"toc\">\n<ul>\n<li><a href=\"#a-b\">a * b</a></li>\n</ul>\n</div>".toList := by
+  decide +kernel
+
+/-- the domain: a bare `&` in a heading is inside (`&amp;` in the name), a non-ASCII heading outside (`slugify`) -/
+example : treeOod { toc := true } {} "# a & b".toList = false ∧ treeOod { toc := true } {} "# é".toList = true := by
   decide +kernel
 
 end MdVerif.C02Fn
